@@ -1,6 +1,8 @@
 import PyGam.Model.Validate
 import Mathlib.Algebra.Order.Ring.Rat
 import Mathlib.Tactic.Linarith
+import Mathlib.Tactic.SplitIfs
+import Mathlib.Tactic.NormNum
 /-!
 # Helper lemmas for the validation model (`Model/Validate.lean`)
 
@@ -134,6 +136,26 @@ theorem checkXFitted_false_of_mem {f : Fit} {X : List (List Val)} {row : List Va
     (hr : row ∈ X) (hv : v ∈ row) (hf : v.isFinite = false) : checkXFitted f X = false := by
   simp [checkXFitted, checkArray2_false_of_mem (some f.nFeats) 1 hr hv hf]
 
+theorem checkXFittedTerm_false_of_mem {f : Fit} {t : Nat} {X : List (List Val)} {row : List Val} {v : Val}
+    (hr : row ∈ X) (hv : v ∈ row) (hf : v.isFinite = false) : checkXFittedTerm f t X = false := by
+  simp [checkXFittedTerm, checkArray2_false_of_mem (some f.nFeats) 1 hr hv hf]
+
+theorem checkXFittedTerm_false_of_width {f : Fit} {t : Nat} {X : List (List Val)} (hne : X ≠ [])
+    (hw : width X ≠ f.nFeats) : checkXFittedTerm f t X = false := by
+  simp [checkXFittedTerm, checkArray2_false_of_width 1 hne hw]
+
+theorem checkXFittedTerm_false_of_cat {f : Fit} {t : Nat} {X : List (List Val)} {c : Cat} {row : List Val} {r : Rat}
+    (hcat : c ∈ f.termCats.getD t []) (hr : row ∈ X) (hc : cell row c.feature = .fin r)
+    (hout : r < c.lo ∨ c.hi < r) : checkXFittedTerm f t X = false := by
+  have h1 : (f.termCats.getD t []).all (catOk X) = false := by
+    cases h : (f.termCats.getD t []).all (catOk X) with
+    | false => rfl
+    | true =>
+        have := List.all_eq_true.mp h c hcat
+        simp [catOk_false_of_mem hr hc hout] at this
+  unfold checkXFittedTerm
+  rw [h1, Bool.and_false]
+
 theorem checkXFresh_false_of_mem {X : List (List Val)} {row : List Val} {v : Val}
     (hr : row ∈ X) (hv : v ∈ row) (hf : v.isFinite = false) : checkXFresh X = false := by
   simp [checkXFresh, checkArray2_false_of_mem none 1 hr hv hf]
@@ -205,5 +227,96 @@ theorem outcome_valueError_of_step {e : Entry} {m : Model} {a : Args} (hf : m.is
   unfold outcome
   rw [hf]
   exact runSteps_valueError _ (fun t _ ht => guards_pass hf hv t ht) ⟨s, hmem, hfail⟩
+
+/-! ## facts about the table (finite case splits) -/
+
+/-- rows of entry points that do not need a fit contain no guard: every failure there is a `ValueError` -/
+theorem noGuard_of_not_needsFit : ∀ (e : Entry) (b c : Bool), e.needsFit = false →
+    ∀ t ∈ table e b c, t.exc = .valueError := by
+  intro e b c h
+  cases e <;> simp [Entry.needsFit] at h <;> cases b <;> cases c <;> decide
+
+theorem guards_ok {e : Entry} {m : Model} {a : Args} (hr : Ready e m) :
+    ∀ t ∈ table e m.isFitted a.converged, t.exc ≠ .valueError → t.passes m a = true := by
+  intro t ht hne
+  cases hn : e.needsFit with
+  | true => obtain ⟨hf, hv⟩ := hr hn; exact guards_pass hf hv t hne
+  | false => exact absurd (noGuard_of_not_needsFit e _ _ hn t ht) hne
+
+/-- a failing step of the row gives `ValueError` whenever the model can serve the entry point -/
+theorem entry_rejects_of_step {e : Entry} {m : Model} {a : Args} (hr : Ready e m) (s : Step)
+    (hs : s ∈ table e m.isFitted a.converged) (hfail : s.passes m a = false) :
+    outcome e m a = .valueError :=
+  runSteps_valueError _ (guards_ok hr) ⟨s, hs, hfail⟩
+
+theorem mem_xStep : ∀ (e : Entry) (b c : Bool),
+    Step.xFresh ∈ table e b c ∨ Step.xFitted ∈ table e b c ∨ Step.xFittedTerm ∈ table e b c := by
+  intro e b c; cases e <;> cases b <;> cases c <;> decide
+
+theorem mem_yFinite : ∀ (e : Entry) (b c : Bool), DataArg.y ∈ e.args →
+    Step.yFinite false ∈ table e b c ∨
+      (Step.yFinite true ∈ table e b c ∧ Step.lenEq .y .exposure ∈ table e b c) := by
+  intro e b c; cases e <;> cases b <;> cases c <;> decide
+
+theorem mem_weights : ∀ (e : Entry) (b c : Bool), DataArg.weights ∈ e.args →
+    ¬ (e = .fitQuantile ∧ b = true ∧ c = true) →
+    Step.vecFinite .weights ∈ table e b c ∧ Step.lenEq .y .weights ∈ table e b c := by
+  intro e b c; cases e <;> cases b <;> cases c <;> decide
+
+theorem mem_exposure : ∀ (e : Entry) (b c : Bool), DataArg.exposure ∈ e.args →
+    Step.vecFinite .exposure ∈ table e b c ∧
+      ((e ≠ .poissonPredict ∧ Step.lenEq .y .exposure ∈ table e b c) ∨
+        (e = .poissonPredict ∧ Step.lenEq .X .exposure ∈ table e b c)) := by
+  intro e b c; cases e <;> cases b <;> cases c <;> decide
+
+theorem mem_lenXY : ∀ (e : Entry) (b c : Bool), DataArg.y ∈ e.args →
+    Step.lenXY ∈ table e b c ∨
+      ((e = .loglikelihood ∨ e = .poissonLoglikelihood) ∧ Step.broadcastXY ∈ table e b c) := by
+  intro e b c; cases e <;> cases b <;> cases c <;> decide
+
+theorem mem_xFitted : ∀ (e : Entry) (b c : Bool), (e.needsFit = true ∨ (e = .fitQuantile ∧ b = true)) →
+    Step.xFitted ∈ table e b c ∨ (e = .partialDependence ∧ Step.xFittedTerm ∈ table e b c) := by
+  intro e b c; cases e <;> cases b <;> cases c <;> decide
+
+theorem mem_compile : ∀ (e : Entry) (b c : Bool),
+    (e = .fit ∨ e = .poissonFit ∨ ((e = .gridsearch ∨ e = .poissonGridsearch) ∧ b = false)
+      ∨ (e = .fitQuantile ∧ (b = false ∨ c = false))) →
+    Step.compile ∈ table e b c := by
+  intro e b c; cases e <;> cases b <;> cases c <;> decide
+
+theorem mem_yDomain : ∀ (e : Entry) (b c : Bool), DataArg.y ∈ e.args →
+    Step.yDomain false ∈ table e b c ∨
+      ((e = .poissonFit ∨ e = .poissonGridsearch) ∧ Step.yDomain true ∈ table e b c) := by
+  intro e b c; cases e <;> cases b <;> cases c <;> decide
+
+theorem mem_sampleAtX : ∀ (b c : Bool), Step.sampleAtXFitted ∈ table .sample b c := by
+  intro b c; cases b <;> cases c <;> decide
+
+/-! ## the shifted boundary targets of `_initial_estimate` -/
+
+theorem adjust_eq (lv y : Rat) (hlv : 1 ≤ lv) :
+    initialAdjust lv y =
+      if y = 0 then 1 / 100 else if y = 1 then 99 / 100 else if lv ≠ 1 ∧ y = lv then lv - 1 / 100 else y := by
+  unfold initialAdjust
+  by_cases h0 : y = 0
+  · subst h0
+    have h1 : ¬ ((0 : Rat) + 1 / 100 = 1) := by norm_num
+    have h2 : ¬ (lv ≠ 1 ∧ (0 : Rat) + 1 / 100 = lv) := by
+      rintro ⟨_, h⟩; rw [← h] at hlv; norm_num at hlv
+    simp only [if_true, h1, if_false, h2]; norm_num
+  · by_cases h1 : y = 1
+    · subst h1
+      have h2 : ¬ (lv ≠ 1 ∧ (1 : Rat) - 1 / 100 = lv) := by
+        rintro ⟨_, h⟩; rw [← h] at hlv; norm_num at hlv
+      simp only [h0, if_false, if_true, h2]; norm_num
+    · simp only [h0, h1, if_false]
+      split_ifs with h2
+      · rw [h2.2]
+      · rfl
+
+/-- the guard comes first for every entry point that needs a fit, except `loglikelihood` (which looks at `y` first) -/
+theorem head_fitted : ∀ (e : Entry) (b c : Bool), e.needsFit = true → e ≠ .loglikelihood → e ≠ .poissonLoglikelihood →
+    (table e b c).head? = some .fitted := by
+  intro e b c; cases e <;> cases b <;> cases c <;> decide
 
 end PyGam.Validate
